@@ -163,7 +163,69 @@ func (g *Gen) faultPlan(nTokens int, full bool) []wire.Fault {
 	return fs
 }
 
+// genC01ViStructured reaches the deep vi paths on purpose: a bracket- and quote-rich buffer, then
+// operators combined with text objects, surround selections (with their argument keys and
+// replacement keys) and character searches, from varied cursor positions.
+func genC01ViStructured(g *Gen) *wire.Scenario {
+	sc := &wire.Scenario{Prop: "C01", Family: "edit-vi-structured", Env: g.swarmEnv("vi")}
+	pool := []rune("()[]{}<>\"'` ab")
+	for i := 0; i < g.Range(0, 10); i++ {
+		sc.Script = append(sc.Script, tok(string(Pick(g, pool)), "self-insert"))
+	}
+	sc.Script = append(sc.Script, tok("\x1b", "vi-movement-mode"))
+	ops := []string{"c", "d", "y", "gU", "gu", "g~", "v"}
+	objs := []string{"iw", "aw", "iW", "aW", "ia", "aa", "w", "b", "e", "$", "0", "%", "h", "l"}
+	brk := []rune("()[]{}<>\"'`")
+	for r := 0; r < g.Range(1, 4); r++ {
+		for i := 0; i < g.N(3); i++ {
+			sc.Script = append(sc.Script, tok(Pick(g, []string{"h", "l", "0", "$", "w", "b", "^"}), "vi-move"))
+		}
+		if g.P(25) {
+			sc.Script = append(sc.Script, tok(string(rune('1'+g.N(4))), "vi-arg-digit"))
+		}
+		op := Pick(g, ops)
+		for _, c := range op {
+			sc.Script = append(sc.Script, tok(string(c), "vi-operator"))
+		}
+		switch g.N(6) {
+		case 0, 1:
+			sc.Script = append(sc.Script, tok("s", "vi-select-surround"), tok(string(Pick(g, brk)), "arg-key"))
+			if op == "c" || g.P(30) {
+				sc.Script = append(sc.Script, tok(string(Pick(g, append(brk, 'x', '\x1b'))), "arg-key"))
+			}
+		case 2:
+			sc.Script = append(sc.Script, tok(Pick(g, []string{"i", "a"}), "vi-select-inside"), tok(string(Pick(g, brk)), "arg-key"))
+		case 3:
+			sc.Script = append(sc.Script, tok(Pick(g, []string{"f", "F", "t", "T"}), "vi-find"), tok(string(Pick(g, pool)), "arg-key"))
+		default:
+			for _, c := range Pick(g, objs) {
+				sc.Script = append(sc.Script, tok(string(c), "vi-motion"))
+			}
+		}
+		if op == "v" {
+			sc.Script = append(sc.Script, tok(Pick(g, []string{"d", "y", "c", "S", "\x1b", "u", "U"}), "vi-visual-op"))
+			if g.P(50) {
+				sc.Script = append(sc.Script, tok(string(Pick(g, brk)), "arg-key"))
+			}
+		}
+		if g.P(40) {
+			sc.Script = append(sc.Script, tok("\x1b", "vi-movement-mode"))
+		}
+	}
+	if g.P(50) {
+		sc.Script = append(sc.Script, tok("\r", "accept-line"))
+	}
+	sc.Plan = wire.Plan{Policy: "seeded", Class: Pick(g, []string{"S0", "S1", "S2"}), Seed: g.Seed()}
+	if sc.Plan.Class == "S0" {
+		sc.Plan.Policy = "canonical"
+	}
+	return sc
+}
+
 func genC01(g *Gen, tier string, idx int) *wire.Scenario {
+	if idx%8 == 7 {
+		return genC01ViStructured(g)
+	}
 	mode := "emacs"
 	if g.P(55) {
 		mode = "vi"
